@@ -83,6 +83,17 @@ def gen(ctx):
                 j = rng.randrange(0, 4)
                 ops += ["c%d:%s" % (rng.randrange(0, 4), C.hexs(bad)), "c%d:%s" % (j, C.hexs(good)), "s%d:%d" % (j, rng.randrange(0, len(docs))),
                         "c%d:%s" % (j, C.hexs(good)), "s%d:%d" % (j, rng.randrange(0, len(docs)))]
+        if rng.random() < 0.3:
+            # a function that FAILS half-way through its input (mixed key types from the 2nd element on, an ill-typed element late in the array)
+            # followed by the same and other functions on good input: nothing of the failed evaluation may be left behind
+            mixed = "[ { s61 u1 } { s61 s78 } { s61 u0 } ]"
+            good1, good2 = "[ { s61 u3 } { s61 u2 } ]", "[ { s61 s62 } { s61 s61 } { s61 s63 } ]"
+            nd = len(docs)
+            docs += [mixed, good1, good2]
+            fexp = rng.choice(["sort_by(@, &a)", "max_by(@, &a)", "min_by(@, &a)", "map(&abs(a), @)", "sort_by(@, &a)[*].a", "[*].abs(a)", "sort(@[*].a)", "sort_by(@, &to_string(a))",
+                               "sort_by(@, &a) | length(@)", "map(&sort_by(@, &a), [@, @])"])
+            j = rng.randrange(0, 4)
+            ops += ["c%d:%s" % (j, C.hexs(fexp))] + ["s%d:%d" % (j, nd + k) for k in (1, 0, 1, 2, 0, 0, 2, 1)]
         if rng.random() < 0.25:
             # the same compiles and searches from different depths of the CALLER's stack (about 1.2 / 2.4 / 4 MiB of ordinary frames below the call):
             # where the caller stands is not an input of compile or search
@@ -184,6 +195,18 @@ def run(ctx):
             if x != y:
                 ctx.violation("registryclone", line[:600], (y or "NONE")[:300], (x or "NONE")[:300],
                               "searching through a clone of a compiled expression differs from searching the expression itself")
+        # one runtime, one document: the same query text asked at different points of the history gets the same answer
+        for line, x in zip(rc, a):
+            qs_ = line.split("\t")[2].split(",")
+            rs_ = (x or "").split(" | ")
+            if len(rs_) == len(qs_):
+                first = {}
+                for q_, r_ in zip(qs_, rs_):
+                    if q_ in first and first[q_] != r_:
+                        ctx.violation("registry", line[:600], "%s: %s" % (C.unhexs(q_), r_[:200]), "%s: %s" % (C.unhexs(q_), first[q_][:200]),
+                                      "the same expression on the same runtime and document answered differently later in the history")
+                        break
+                    first.setdefault(q_, r_)
         # the same histories with unrelated compiles and searches on the shared default runtime interleaved (same texts, every builtin called):
         # what a custom runtime's expression returns does not depend on what happened on another runtime before
         nz = C.run_parallel([ctx.harness, "registrynoise"], rc)
